@@ -126,14 +126,25 @@ deriving DecidableEq, Repr
 
 def RefKey.toRef (k : RefKey) : Ref := ⟨k.name, k.sum, false⟩
 
+/-- the `camliContent` of a permanode: the date of the (single) set-claim, the time the file schema
+blob carries (`unixMtime`, which the indexer stores as FileInfo.Time when it is the only time of the
+file), and whether the file blob has been indexed yet – blobs arrive in any order -/
+structure CC where
+  claimDate : Int
+  fileTime : Option Int
+  indexed : Bool
+deriving Repr
+
 /-- a permanode as the corpus sees it: the parsed `dateCreated` attribute (if set), the dates of its
-(non-deleted) claims, and whether it carries `tag=a` / `tag=b` -/
+(non-deleted) claims, whether it carries `tag=a` / `tag=b` / `camliNodeType=foo`, and its camliContent -/
 structure PN where
   ref : RefKey
   dc : Option Int
   tagA : Bool
   tagB : Bool
   dates : List Int
+  tagY : Bool
+  cc : Option CC
 deriving Repr
 
 /-- Corpus.PermanodeModtime (corpus.go:1230): the latest claim date; not ok when there is none -/
@@ -141,10 +152,23 @@ def permanodeModtime (p : PN) : Option Int :=
   let t := p.dates.foldl (fun t d => if t < d then d else t) zeroTime
   if t = zeroTime then none else some t
 
-/-- Corpus.PermanodeAnyTime (corpus.go:1192) for permanodes whose only time-bearing attribute is
-`dateCreated` (no camliContent, no other date attributes): PermanodeTime, else the modtime -/
-def permanodeAnyTime (p : PN) : Option Int :=
+/-- Corpus.PermanodeTime (corpus.go:1143) for permanodes whose time-bearing attributes are
+`dateCreated` and `camliContent` (a plain file): dateCreated, else FileInfo.Time of the content file
+once it is indexed, else the date of the camliContent claim -/
+def permanodeTime (p : PN) : Option Int :=
   match p.dc with
+  | some t => some t
+  | none =>
+    match p.cc with
+    | none => none
+    | some c =>
+      match c.indexed, c.fileTime with
+      | true, some ft => some ft
+      | _, _ => some c.claimDate
+
+/-- Corpus.PermanodeAnyTime (corpus.go:1192): PermanodeTime, else the modtime -/
+def permanodeAnyTime (p : PN) : Option Int :=
+  match permanodeTime p with
   | some t => some t
   | none => permanodeModtime p
 
@@ -158,6 +182,9 @@ for `b`, `Constraint{CamliType: permanode}`, and `Logical{and, tag=a, tag=b}` (a
 `onlyMatchesPermanode`) -/
 inductive Cons where
   | all | tagA | tagB | camliType | both
+  | nodeType                 -- Permanode{Attr: camliNodeType, Value: foo}   (matchesPermanodeTypes)
+  | nodeTypeAndA             -- Logical{and, camliNodeType=foo, tag=a}
+  | refPrefix (pfx : Bytes)  -- Logical{and, Permanode{}, BlobRefPrefix: pfx} (a full ref: matchesAtMostOneBlob)
 deriving DecidableEq, Repr
 
 def pnTime : SortBy → PN → Option Int
@@ -199,6 +226,9 @@ def baseMatches (w : List PN) (c : Cons) (k : RefKey) : Bool :=
     | .tagB => p.tagB
     | .camliType => true
     | .both => p.tagA && p.tagB
+    | .nodeType => p.tagY
+    | .nodeTypeAndA => p.tagY && p.tagA
+    | .refPrefix pfx => pfx.isPrefixOf (toText p.ref.toRef)
 
 /-- PermanodeContinueConstraint: the token's time (in `LastMod` or `LastCreated`, the other is the
 zero Time) and `Last` -/
